@@ -93,6 +93,22 @@ CHECKS = {
               "accumulator is covered under C20."),
         technique="TLA+/TLC model checking of Batch + replay of enumerated batches into the real batch verifier/accumulator validated by a trace spec",
     ),
+    "C17": dict(
+        category="model_checking",
+        text=("Lifecycle.tla identifies parameters by (secret, k) and keys by (circuit, k, secret) - never by thread "
+              "count, repetition, set-up-vs-downsize or serialization history - and TLC checks over all interleavings "
+              "of set-up, downsize, key generation and compatible round trips that the bytes per identity remain a "
+              "function. The harness records those events from the real code (ParamsKZG set-up and downsize to every "
+              "k' against a fresh set-up from the same secret; keygen_vk/keygen_pk under thread pools {1,2,3,8,16}, "
+              "repeated; write/read of parameters, VerifyingKey, ProvingKey, MidnightVK, MidnightPK in all nine "
+              "format pairs; proofs by original and reloaded proving keys verified under original and reloaded "
+              "verifying keys) and Lifecycle_Trace rejects a second hash for an identity, a lossy or refused "
+              "compatible round trip, an incompatible read that silently yields another object and any failed cross "
+              "verification."),
+        design_ref="DESIGN.md 4/C17",
+        note="Bytes compared through a hash; proof bytes are not deterministic (OsRng blinding), so cross checks compare verdicts.",
+        technique="TLA+/TLC model checking of Lifecycle + trace validation of recorded lifecycle events",
+    ),
 }
 
 NOT_YET = {
